@@ -118,6 +118,10 @@ func (b *CCFeedbackReport) Header() Header {
 
 // Marshal encodes the Congestion Control Feedback Report in binary
 func (b CCFeedbackReport) Marshal() ([]byte, error) {
+	// the length field counts 32-bit words minus one in 16 bits
+	if b.MarshalSize() > 4*(math.MaxUint16+1) {
+		return nil, errTooManyReports
+	}
 	header := b.Header()
 	headerBuf, err := header.Marshal()
 	if err != nil {
